@@ -340,8 +340,27 @@ var c22BaseRoot = common.HexToHash("0xc22")
 
 func c22NewInst() *c22Inst {
 	kv := rawdb.NewMemoryDatabase()
+	rawdb.WriteSnapshotRoot(kv, c22BaseRoot) // what a persisted disk layer leaves behind; needed to load the tree again
 	base := &diskLayer{diskdb: kv, root: c22BaseRoot, cache: fastcache.New(64 * 1024)}
-	return &c22Inst{kv: kv, snaps: &Tree{layers: map[common.Hash]snapshot{base.root: base}}}
+	return &c22Inst{kv: kv, snaps: &Tree{diskdb: kv, layers: map[common.Hash]snapshot{base.root: base}}}
+}
+
+// reload journals the tree from head and loads it back from the key-value
+// store, the way a node restart does.
+func (in *c22Inst) reload(head common.Hash, wantLayers int) error {
+	if _, err := in.snaps.Journal(head); err != nil {
+		return fmt.Errorf("Journal: %v", err)
+	}
+	in.snaps.Release()
+	reloaded, err := New(Config{CacheSize: 1, NoBuild: true}, in.kv, nil, head)
+	if err != nil {
+		return fmt.Errorf("snapshot.New after Journal: %v", err)
+	}
+	in.snaps = reloaded
+	if len(reloaded.layers) != wantLayers {
+		return fmt.Errorf("reloaded tree has %d layers, journalled %d", len(reloaded.layers), wantLayers)
+	}
+	return nil
 }
 
 func (in *c22Inst) close() {
@@ -511,13 +530,13 @@ func (in *c22Inst) fingerprint(s *c22Stack) string {
 			fmt.Fprintf(&sb, "diff(stale=%v,al=%v):", x.stale.Load(), x.accountList != nil)
 			for i, h := range c22AcctHash {
 				if v, ok := x.accountData[h]; ok {
-					fmt.Fprintf(&sb, "a%d=%x;", i, v)
+					fmt.Fprintf(&sb, "a%d=%x/%v;", i, v, v == nil) // nil-ness is part of the state: deletions are nil
 				}
 				if m, ok := x.storageData[h]; ok {
 					sb.WriteString("{")
 					for j, sh := range c22SlotHash {
 						if v, ok := m[sh]; ok {
-							fmt.Fprintf(&sb, "s%d=%x;", j, v)
+							fmt.Fprintf(&sb, "s%d=%x/%v;", j, v, v == nil)
 						}
 					}
 					sb.WriteString("}")
@@ -557,6 +576,7 @@ type c22Shared struct {
 const (
 	c22OpFlatten = -1
 	c22OpPersist = -2
+	c22OpReload  = -3
 )
 
 func c22NewShared(cfg c22Cfg) *c22Shared {
@@ -564,7 +584,7 @@ func c22NewShared(cfg c22Cfg) *c22Shared {
 	for _, d := range sh.deltas {
 		sh.names = append(sh.names, d.name)
 	}
-	sh.names = append(sh.names, "flatten-two-bottom-diffs", "persist-head")
+	sh.names = append(sh.names, "flatten-two-bottom-diffs", "persist-head", "journal+reload")
 	return sh
 }
 
@@ -634,14 +654,18 @@ func (s *c22Sys) opOf(i int) int {
 		return i
 	case i == len(s.sh.deltas):
 		return c22OpFlatten
-	default:
+	case i == len(s.sh.deltas)+1:
 		return c22OpPersist
+	default:
+		return c22OpReload
 	}
 }
 
 // modelStep applies op to the reference stack; false if not enabled.
 func (s *c22Sys) modelStep(st *c22Stack, op int, limit bool) bool {
 	switch op {
+	case c22OpReload:
+		return true // Journal(head) + snapshot.New: the stack and its worlds do not change
 	case c22OpFlatten:
 		if len(st.layers) < 4 {
 			return false // needs three diff layers: the two bottom-most ones are merged below the third
@@ -672,6 +696,8 @@ func (s *c22Sys) modelStep(st *c22Stack, op int, limit bool) bool {
 
 func (s *c22Sys) realStep(st *c22Stack, op int) error {
 	switch op {
+	case c22OpReload:
+		return s.in.reload(st.head().root, len(st.layers))
 	case c22OpFlatten:
 		return s.in.snaps.Cap(st.head().root, len(st.layers)-3)
 	case c22OpPersist:
@@ -751,6 +777,8 @@ func (s *c22Sys) Apply(i int) error {
 		sh.counts["flatten"]++
 	case c22OpPersist:
 		sh.counts["persist"]++
+	case c22OpReload:
+		sh.counts["journal+reload"]++
 	default:
 		sh.counts[[]string{"account set", "account destruct", "account destruct+recreate", "slot set", "slot delete"}[sh.deltas[op].kind]]++
 	}
@@ -785,7 +813,7 @@ func c22Close(s mc.Sys) {
 func TestVerif_C22_snapshot(t *testing.T) {
 	mc.Run(t, "C22", func(r *mc.R) {
 		r.Rule("explicit-state BFS over layer stacks of the real legacy snapshot.Tree: one delta per diff layer out of {account create/modify, destruct, destruct+recreate with fresh storage, slot set, slot delete} " +
-			"over 3 accounts x 2 slots, plus Cap(head,n) flattening the two bottom-most diff layers and Cap(head,0), on prepared bases; after every operation every live root is iterated with the fast and " +
+			"over 3 accounts x 2 slots, plus Cap(head,n) flattening the two bottom-most diff layers, Cap(head,0) and journal+reload (Tree.Journal(head) then snapshot.New on the same store), on prepared bases; after every operation every live root is iterated with the fast and " +
 			"the binary account iterator and all storage iterators from every seek position; state key = worlds of the stack + content/list caches of all layers and the flat store")
 		r.Bound("accounts", c22NAcct)
 		r.Bound("slots_per_account", c22NSlot)
